@@ -7,6 +7,10 @@ CHECKS = {
    text='Complete enumeration of the bounded value languages named in the statement (all strings <=6 over the digit/sign/point/blank/letter alphabet, boundary-year calendars, all YYMMDD, all HHMM/HHMMSS, hyphen placements, every code point x charset x version) compared value-by-value with an independent recogniser, plus 12k-160k Hypothesis strings for the never-raises clause. Equality of two regular-ish languages over small alphabets is decided by enumeration up to the stated length; beyond it nothing is claimed.',
    design_ref='3/C13', technique='exhaustive enumeration of finite slices + Hypothesis text, differential against an independent recogniser',
    note='Trusted: the reference recognisers in vpx/props/c13.py (datetime.date for the calendar; character sets typed from the X12 standard). Quick tier enumerates 12 of 100 YY slices and 10 of 100 HH slices (seed-rotated) plus all boundary slices; thorough enumerates all.'),
+ 'C01': dict(
+   text='Generated interchange texts (delimiters, line-break layout, empty/leading-blank/trailing-empty segments, read-buffer boundary alignment, over-long segments) are read through four source kinds (StringIO, short-read stream, path, open file) and compared segment-by-segment, value-by-value with an independent tokeniser; formatted output is compared with the reference serialisation and re-read. Search, not proof: quick 440 generated texts + 28 fixtures x 4 chunkings; thorough 6400.',
+   design_ref='3/C01', technique='Hypothesis structured generation with boundary-targeted padding; differential against reference tokeniser; metamorphic over chunking and source kind',
+   note='Trusted: vpx/x12ref.py (40-line tokeniser from the ISA offsets). Not generated: unterminated trailing fragment, blank-only segments, CR inside values (text-mode files translate it), non-ASCII.'),
 }
 for pid in CHECKS:
     ENGINES[0]['serves_properties'].append(pid)
